@@ -8,7 +8,7 @@
 //   flags (bit mask, default 0xff): 1 hierarchy (Area entities)  2 reset kinds/polarity  4 falling/both-edge clocks  8 output modes
 //                                   16 extra blocks (memories, tristate pins, wide arithmetic)  32 undefined stimuli (half of the cases)
 //                                   64 first stimuli issued at power-on, before any simulator event (half of the cases)
-//                                   128 bidirectional pins driven naively by the simulation process (half of the cases)
+//                                   128 bidirectional pins released with 'Z' by the simulation process while the design drives (half of the cases)
 #include <gatery/pch.h>
 #include "designgen.h"
 #include <gatery/hlim/Circuit.h>
@@ -34,7 +34,7 @@ struct Opts {
 	bool areas = false, names = false;
 	unsigned style = 0;       // 0: set, OnClk, read (classic)  1: set, WaitFor(fraction), read, OnClk  2: set, WaitStable, read, OnClk
 	bool undefStim = false;
-	bool triNaive = false;    // bidirectional pin: the testbench never drives 'Z' first / drives against the design (bus contention)
+	bool triNaive = false;    // bidirectional pin: the simulation process releases the pin with 'Z' while the design drives it
 	bool setAtPowerOn = false; // first SETs are issued at power-on (time 0, outside the event loop) instead of after a short wait
 	unsigned extra = 0;       // bit mask of extra blocks
 	uint64_t extraSeed = 0;
@@ -176,14 +176,16 @@ static bool runOne(uint64_t k, const vh::Recipe &recipe, const Opts &o, uint64_t
 		std::vector<hlim::Node_Pin*> outPins = b.outPins; outPins.insert(outPins.end(), x.outPins.begin(), x.outPins.end());
 		Rng srng(stimSeed);
 		vh::Stimulus st = vh::genStimulus(srng, inWidths, ncycles, o.undefStim);
-		if (x.triPin >= 0 && !o.triNaive) {
-			// realistic use of a bidirectional pin: the testbench first drives a defined value while the design does not drive (this is
-			// what makes the recorder emit a SET at all), and releases the pin ('Z') whenever the design may drive it
-			size_t en = b.inPins.size() + x.triEnable, pin = b.inPins.size() + x.triPin;
+		if (x.triPin >= 0) {
+			// The recorder cannot express high impedance (a 'Z' drive is written as 'X', FileBasedTestbenchRecorder.cpp:463) and the
+			// testbench signal starts with a 'U' driver.  tri=1: the testbench first drives a defined value while the design does not
+			// drive, and drives the SAME value as the design whenever the design drives (no contention, resolved(a,a) = a).
+			// tri=2: it releases the pin with 'Z' whenever the design drives (what a user would write; recorded as 'X').
+			size_t en = b.inPins.size() + x.triEnable, pin = b.inPins.size() + x.triPin, tv = pin - 1;
 			st.cycles[0][en] = "0";
 			for (auto &c : st.cycles[0][pin]) if (c == 'x') c = '1';
 			for (auto &row : st.cycles)
-				if (row[en] != "0") row[pin] = std::string(row[pin].size(), 'z');
+				if (row[en] != "0") row[pin] = o.triNaive ? std::string(row[pin].size(), 'z') : row[tv];
 		}
 		Clock &clock = *b.clock;
 		size_t reads = 0;
